@@ -3,7 +3,7 @@
    (positive, N, Z) and Flocq floats stay Coq datatypes. *)
 Require Import ExtrOcamlBasic.
 From TauModel Require Import Base Num Oracles Value Syntax Generated Token Pratt Ident Yaml
-     ParseMap Solver Rule Optimiser Known Spec Scope Scope2 Scope4 Scope5 Scope3 Order.
+     ParseMap Solver Rule Optimiser Known Spec Scope Scope2 Scope4 Scope5 Scope6 Scope3 Order.
 
 Extraction "../runner/model.ml"
   tokenise parse into_identifier parse_identifier load_rule load_detection solve_rule3
